@@ -289,6 +289,9 @@ inductive ApiAttr where
   | clusterList (ids : List AStr)
   | largeCommunities (l : List (Nat × Nat × Nat))
   | extCommunities (l : List ExtCom)
+  /-- `MpReachNlriAttribute`: family (`None`, or afi / safi as the u32 bit patterns of the i32 fields) and the
+      next hops as text; its `nlris` are not read by `attr_from_api` (AddPath carries the NLRI in `Path.nlri`) -/
+  | mpReach (fam : Option (Nat × Nat)) (nextHops : List AStr)
   deriving DecidableEq, Repr
 
 /-- which repairs of this property are present in the code being modelled -/
@@ -342,6 +345,7 @@ def ApiAttr.inRange : ApiAttr → Bool
   | .clusterList l => l.all AStr.inRange
   | .largeCommunities l => l.all fun t => u32 t.1 && u32 t.2.1 && u32 t.2.2
   | .extCommunities l => l.all ExtCom.inRange
+  | .mpReach fam nhs => (match fam with | some (a, s) => u32 a && u32 s | none => true) && nhs.all AStr.inRange
 
 /-! ## `read_extcom` / `write_extcom` -/
 
@@ -501,6 +505,31 @@ def typedCode (code : Nat) : Bool :=
   code = 1 ∨ code = 2 ∨ code = 3 ∨ code = 4 ∨ code = 5 ∨ code = 6 ∨ code = 7 ∨ code = 8 ∨ code = 9 ∨
   code = 10 ∨ code = 16 ∨ code = 32 ∨ code = 23 ∨ code = 29 ∨ code = 17 ∨ code = 18
 
+/-- the carrier `attr_from_api` builds for an `MpReachNlriAttribute`: `[AFI:2][SAFI:1][NH_LEN:1][next hop][reserved:1]`
+    (no NLRI) -/
+def mpCarrier (afi safi : Nat) (nh : Bytes) : Bytes := beN 2 afi ++ [safi, nh.length] ++ nh ++ [0]
+
+/-- the value of the MP_REACH carrier for a typed message (`none` = `Err(InvalidArgument)`): the family must
+    fit the wire (F17g repair), a FlowSpec family may come without a next hop (RFC 8955 section 4), otherwise
+    the FIRST next hop is taken, as IPv4 or IPv6 text -/
+def mpReachValue (fx : Fixes) (fam : Option (Nat × Nat)) (nhs : List AStr) : Option Bytes :=
+  match fam with
+  | none => none
+  | some (afi, safi) =>
+      if fx.validate ∧ (afi > 65535 ∨ safi > 255) then none
+      else
+        let afi := afi % 65536
+        let safi := safi % 256
+        match nhs with
+        | [] => if (afi = 1 ∨ afi = 2) ∧ (safi = 133 ∨ safi = 134) then some (mpCarrier afi safi []) else none
+        | s :: _ =>
+            match s.parse4 with
+            | some a => some (mpCarrier afi safi (beN 4 a))
+            | none =>
+                match s.parse6 with
+                | some a => some (mpCarrier afi safi (beN 16 a))
+                | none => none
+
 /-- `attr_from_api` without the exactness / size checks (see `fromApi`) -/
 def fromApi0 (fx : Fixes) : ApiAttr → Out Attribute
   | .missing => .err
@@ -556,6 +585,10 @@ def fromApi0 (fx : Fixes) : ApiAttr → Out Attribute
       match l.mapM writeExtcom with
       | none => .err
       | some cs => okOrErr (newWithBin 16 cs.flatten)
+  | .mpReach fam nhs =>
+      match mpReachValue fx fam nhs with
+      | none => .err
+      | some b => okOrErr (newWithBin 14 b)
 
 /-- the largest attribute value any UPDATE can carry: 65535 (RFC 8654) - 19 header - 2 - 2 length
     fields - 4 attribute header -/
